@@ -5,6 +5,7 @@ Lemmas.Choice — helper lemmas for Props/C17 and Props/C04: exact characterisat
 -/
 import PestTyped.Model.Access
 import PestTyped.Lemmas.CursorRun
+import PestTyped.Lemmas.ResProj
 namespace PestTyped
 
 /-! ### result projections (used by the `decide` examples; `Res` and `Val` have no `DecidableEq`) -/
@@ -17,13 +18,7 @@ def Res.rest? {σ α} : Res σ α → Option (List Char)
   | .ok i _ _ => some i.rest
   | _ => none
 
-def Res.isOk {σ α} : Res σ α → Bool
-  | .ok _ _ _ => true
-  | _ => false
-
-def Res.isFail {σ α} : Res σ α → Bool
-  | .fail _ => true
-  | _ => false
+-- `Res.isOk`, `Res.isFail`: see `Lemmas/ResProj`.
 
 /-! ### `choiceLoop` -/
 
